@@ -106,7 +106,7 @@ def run(cmd, a, out, suffix):
     elif cmd == "stats":
         from whatshap.cli.stats import run_stats
 
-        run_stats(a["vcf"], tsv=p("stats.tsv"), block_list=p("blocks.tsv"), gtf=p("blocks.gtf"))
+        run_stats(a["vcf"], tsv=p("stats.tsv"), block_list=p("blocks.tsv"), gtf=p("blocks.gtf"), **a.get("kw", {}))
     elif cmd == "split":
         from whatshap.cli.split import run_split
 
